@@ -241,7 +241,9 @@ func runPoolOps(cfg poolCfg, ops []poolOp) (tr poolTrace) {
 	srv := &poolSrv{max: cfg.MaxConns, slow: map[string]chan struct{}{}, lastConn: map[string]int{}, closeErr: cfg.CloseErr}
 	ctx := context.Background()
 	opt := chpool.Options{
-		ClientOptions:     ch.Options{Logger: zap.NewNop(), Dialer: srv, Address: "sim:9000", ReadTimeout: 60 * time.Millisecond, Compression: ch.Compression(cfg.Compression)},
+		ClientOptions: ch.Options{Logger: zap.NewNop(), Dialer: srv, Address: "sim:9000", ReadTimeout: 60 * time.Millisecond, Compression: ch.Compression(cfg.Compression),
+			// connection-level settings in a slice with spare capacity, shared by every connection of the pool
+			Settings: append(make([]ch.Setting, 0, 8), ch.Setting{Key: "max_threads", Value: "1", Important: true})},
 		MaxConns:          int32(cfg.MaxConns),
 		MaxConnLifetime:   time.Duration(cfg.LifeMs) * time.Millisecond,
 		MaxConnIdleTime:   time.Duration(cfg.IdleMs) * time.Millisecond,
@@ -462,9 +464,9 @@ func runPoolOps(cfg poolCfg, ops []poolOp) (tr poolTrace) {
 						kind := []string{"ok", "ok", "ok", "exc", "cut"}[rr.Intn(5)]
 						qid := fmt.Sprintf("s%d-%d-%s", g, i, kind)
 						if rr.Bool() {
-							_ = pool.Do(sctx, ch.Query{Body: "SELECT 1", QueryID: qid})
+							_ = pool.Do(sctx, ch.Query{Body: "SELECT 1", QueryID: qid, Settings: []ch.Setting{{Key: "holder", Value: fmt.Sprint(g)}}})
 						} else if h, err := pool.Acquire(sctx); err == nil {
-							_ = h.Do(sctx, ch.Query{Body: "SELECT 1", QueryID: qid})
+							_ = h.Do(sctx, ch.Query{Body: "SELECT 1", QueryID: qid, Settings: []ch.Setting{{Key: "holder", Value: fmt.Sprint(g)}, {Key: "round", Value: fmt.Sprint(i)}}})
 							if rr.Chance(30) {
 								_ = h.Ping(sctx)
 							}
